@@ -4,6 +4,11 @@ import json, subprocess
 
 # id: (level, engine, technique, level text, level note, design ref)
 CHECKS = {
+ "C10": ("exploration", "space",
+         "complete enumeration of an operator table x directions x tuple classes x all 16 NaN masks, with a per-operator dependency matrix as oracle",
+         "28 operators (plane projections incl. both laea aspects, merc/webmerc, cart both ways, static/rotated/dynamic helmert, molodensky, latitude, permtide, addone, unitconvert, gridshift on datum/geoid/NTv2 grids and grid lists, deformation, deflection, curvature, gravity) x supported directions: every inside tuple alone and in a set must be counted, finite in the worked-on elements and bit-identical elsewhere; each of the 15 non-empty NaN masks must give NaN in every output that depends on a NaN input (dependency matrix per operator and direction) and leave independent untouched elements bit-identical; tuples beyond the declared limits (TM strip, laea disc, grid coverage) must be NaN in the worked-on elements and uncounted, never unchanged or partly transformed; set count = sum of single counts <= len; one-way inverses report 0 and leave data untouched; null-grid pass-through; six pipelines with failing steps (count = min, failed tuples NaN, stack underflow).",
+         "The dependency matrices and the lists of out-of-domain tuples are the harness's transcription of each operator's documentation. The count of tuples whose only NaN sits in an untouched element is not judged.",
+         "DESIGN.md §3 C10"),
  "C14": ("exploration", "space",
          "complete enumeration of each route pair's common-domain lattice x shared parameters x ellipsoids; two executions of the real code (or real code vs closed form / quadrature) compared",
          "tmerc vs btmerc (4 shared parameter sets) and utm vs butm (2 zones) within 3 degrees of the central meridian, forward and inverse, 1 mm; cart operator forward bit-identical to Ellipsoid::cartesian and its inverse within 1 mm of Ellipsoid::geographic for h in [-10 km, 100 km]; latitude (6 kinds, both directions), curvature (5 kinds), gravity (5 formulae) and geodesic (both directions) operators against the ellipsoid methods to rounding; 10 mappings shared by axisswap / unitconvert / adapt to 1 ulp in both directions; every non-grid catalogue definition (54) through Minimal and Plain bit-identical in both directions; series-based conformal and authalic latitudes vs closed forms (1e-11 rad, |lat| <= 89.9) and meridian arcs vs Gauss-Legendre quadrature (1e-6 m). Quick: 4 ellipsoids, thorough: every instantiable built-in.",
@@ -117,7 +122,7 @@ def main():
             "add_only": True,
         },
         "engines": [
-            {"name": "space", "path": "/verif/mc/src/engine.rs", "kind_free_text": "exhaustive mixed-radix product enumeration on 16 threads (par_range/decode)", "serves_properties": ["C01", "C05", "C06", "C07", "C11", "C13", "C14", "C16", "C19"]},
+            {"name": "space", "path": "/verif/mc/src/engine.rs", "kind_free_text": "exhaustive mixed-radix product enumeration on 16 threads (par_range/decode)", "serves_properties": ["C01", "C05", "C06", "C07", "C10", "C11", "C13", "C14", "C16", "C19"]},
             {"name": "explore", "path": "/verif/mc/src/props", "kind_free_text": "explicit-state / program-tree exploration of the real API against reference models written in Rust", "serves_properties": ["C02", "C03", "C04", "C12", "C17", "C18"]},
             {"name": "sched", "path": "/verif/mc/src/props/c18.rs", "kind_free_text": "shuttle DfsScheduler over real threads sharing Plain contexts and the process-wide grid cache; yield points from hook H4", "serves_properties": ["C18"]},
             {"name": "workers", "path": "/verif/mc/src/engine.rs", "kind_free_text": "worker subprocesses (2 MiB stack, 4 GiB address space, watchdog) for hang / overflow / abort detection", "serves_properties": ["C04"]},
